@@ -44,7 +44,7 @@ Proof.
   split; [eapply OT_frame; [ | |exact T]; rewrite upd_worker_eq; reflexivity|]. apply X_upd_worker; [| | |exact D]; cbn.
   - intros t' Ht'. discriminate.
   - intros t0 Ht0. right. apply Hk. exact Ht0.
-  - intros _. reflexivity.
+  - intros _. exact I.
 Qed.
 
 (* ---- a new task ---------------------------------------------------------------------------------------------- *)
